@@ -58,6 +58,7 @@ KINDS = [
     "GetDefaultCategory", "GetDefaultUnit/Value", "GetUnits", "GetBaseUnit", "GetCategoryInfo", "CheckCategoryUnit", "CheckQuantityTypeUnit", "GetQuantityType", "mul", "add", "sub-reversed", "div",
     "Array.IsValid", "Array.GetValues", "FixedArray", "FractionScalar", "ObtainQuantity", "ObtainQuantity(u)", "Quantity(c,u)", "derived-sum", "derived-product", "CreateCopy(unit)", "pickle",
     "GetUnitName", "FindUnitCase", "CheckValueForCategory", "quantity.GetValidUnits", "ChangeScalars", "compare",
+    "GetUnits()/GetInfos()", "GetInfo", "FindSimilarUnitMatches", "IsValidCategory/CheckQuantityType", "quantity getters", "db.Sum/Multiply",
 ]  # fmt: skip
 
 
@@ -194,6 +195,25 @@ def run_query(db, q):
         elif kind == "compare":
             a, b = Scalar(c, x, u), Scalar(c2, 2.0, v)
             r = [a < b, a == b, a >= b]
+        elif kind == "GetUnits()/GetInfos()":
+            r = [sorted(db.GetUnits()), sorted(i.unit for i in db.GetInfos()), sorted(db.GetUnitNames()), sorted(db.GetQuantityTypes())]
+        elif kind == "GetInfo":
+            i = db.GetInfo(db.GetCategoryQuantityType(c), u)
+            i2 = db.GetInfo(c, v)
+            r = [i.unit, i.name, i.quantity_type, i.default_category, i2.unit, repr(i.tobase(2.0)), repr(i.frombase(2.0))]
+        elif kind == "FindSimilarUnitMatches":
+            r = [sorted(db.FindSimilarUnitMatches(u)), sorted(db.FindSimilarUnitMatches(v.upper()))]
+        elif kind == "IsValidCategory/CheckQuantityType":
+            r = [db.IsValidCategory(c), db.IsValidCategory(c2), db.GetQuantityType(u)]
+            db.CheckQuantityType(db.GetCategoryQuantityType(c))
+        elif kind == "quantity getters":
+            qq = ObtainQuantity(u, c)
+            r = [qq.GetValidUnits(), qq.GetUnitName(), qq.GetUnitCaption(), qq.GetCategoryInfo().default_unit, qq.GetComposingUnitsJoiningExponents(), qq.GetCategoryToUnitAndExpsCopy(), qq.ConvertScalarValue(x, v),
+                 qq.Convert([x, 1.0], v), qq.MakeCopy() is qq]  # fmt: skip
+            qq.CheckValue(x)
+        elif kind == "db.Sum/Multiply":
+            q1, q2 = ObtainQuantity(u, c), ObtainQuantity(v, c2)
+            r = [db.Multiply(q1, q2, x, 2.0), db.Divide(q1, q2, x, 2.0), db.Sum(q1, q2, x, 2.0), db.Subtract(q2, q1, x, 2.0)]
         else:
             raise H.HarnessBug(kind)
     except H.HarnessBug:
@@ -226,6 +246,7 @@ def history(ctx, r, n_steps, base="empty", fresh_cache=None):
     regs = []
     pending = list(REG)
     hist = []
+    asked = []
     # start with a few registrations so that early queries have something to succeed on
     head = r.choice([0, 3, 6, 9, 12, 15])
     for step in range(n_steps):
@@ -245,7 +266,10 @@ def history(ctx, r, n_steps, base="empty", fresh_cache=None):
                     if before is not None and full_snapshot(warm) != before:
                         ctx.violation("rejected-registration-changed-the-registry:%s" % call[0], {"history": hist[-10:], "error": repr(e)[:160]}, replay={"history": list(hist)}, prop="C14")
             continue
-        q = gen_query(r)
+        # a third of the queries repeat one asked earlier in this history (before later registrations and
+        # other queries): the answer must still be the one a fresh database gives
+        q = r.choice(asked) if asked and r.random() < 0.35 else gen_query(r)
+        asked.append(q)
         hist.append(["query"] + list(q))
         with table.pushed(warm):
             before = full_snapshot(warm) if base == "empty" else snapshot.registry(warm, sample_conversions=False)
@@ -260,8 +284,13 @@ def history(ctx, r, n_steps, base="empty", fresh_cache=None):
             ctx.violation("same-query-asked-twice-differs:%s" % q[0], {"query": list(q), "first": ow, "second": ow2, "history_tail": hist[-6:]}, replay=case)
         fresh = table.build(base)
         with table.pushed(fresh):
-            for call in regs:
-                apply_reg(fresh, call)
+            try:
+                for call in regs:
+                    apply_reg(fresh, call)
+            except Exception as e:
+                # accepted by the database with a history, rejected by a fresh one: the history leaked into the verdict
+                ctx.violation("registration-accepted-after-a-history-but-rejected-on-a-fresh-database:%s" % call[0], {"registration": [call[0], list(call[1]), call[2]], "error": repr(e)[:200], "history_tail": hist[-8:]}, replay=case)
+                return hist
             of = run_query(fresh, q)
         ctx.ev()
         ctx.nt((q[0], ow[0], ow[1] if ow[0] != "ok" else "", len(regs)))
@@ -320,7 +349,7 @@ POSC_REG = [
 def history_posc(ctx, r, n_steps):
     """Same differential with the shipped POSC database as the starting point."""
     warm = table.build("posc")
-    regs, pending, hist = [], list(POSC_REG), []
+    regs, pending, hist, asked = [], list(POSC_REG), [], []
     for step in range(n_steps):
         if pending and r.random() < 0.08:
             call = pending.pop(0)
@@ -329,7 +358,8 @@ def history_posc(ctx, r, n_steps):
                 apply_reg(warm, call)
             regs.append(call)
             continue
-        q = gen_query(r, POSC_CATS, POSC_UNITS, POSC_CAT_TYPE, POSC_TYPE_UNITS)
+        q = r.choice(asked) if asked and r.random() < 0.35 else gen_query(r, POSC_CATS, POSC_UNITS, POSC_CAT_TYPE, POSC_TYPE_UNITS)
+        asked.append(q)
         hist.append(["query"] + list(q))
         with table.pushed(warm):
             before = snapshot.registry(warm, sample_conversions=False)
